@@ -796,3 +796,92 @@ def run_WH(chk, rule):
                     f"backend eigs_which: for which='{w}' the ascending sort key has normal form {got}; listing the "
                     f"{'largest' if want[0] > 0 else 'smallest'} {'magnitudes' if want[1] == 'abs' else 'real parts'} first needs the key "
                     f"{'-' if want[0] > 0 else ''}{'|val|' if want[1] == 'abs' else 'val.real'} (a missing case falls through to another ordering)")
+
+
+
+# ------------------------------------------------------------------ G7 / G8: arithmetic on charges goes through the symmetry
+def run_G78(chk, prefixes, rule7="G7", rule8="G8"):
+    """Charges are elements of the symmetry group: a vector with one component per factor of the group.  G7: the components of one charge are
+    never added together (`sum(a.struct.n)`: (1, -1) of U1xU1 is not the zero charge although its components sum to 0) -- a total charge is
+    tested component-wise or against sym.zero().  G8: a charge is negated by the symmetry (`sym.fuse(t, (1,), -1)`, which reduces modulo the
+    order of a cyclic factor), never by a bare unary minus on its components (-1 is not a Z2 / Z3 charge; legs validate their charges)."""
+    import ast as _ast
+    prog = chk.prog
+    chk.rule(rule7, "the components of a charge vector are never added together (zero charge is tested component-wise)", floor=0)
+    chk.rule(rule8, "charges are negated by the symmetry's fuse (reduction modulo the group), never by a bare minus on their components", floor=0)
+
+    def charge_attr(e):
+        return any(isinstance(x, _ast.Attribute) and x.attr in ("t", "n") for x in _ast.walk(e))
+
+    fx7 = _ast.parse("def f(a):\n    return sum(a.struct.n) != 0\n").body[0]
+    fx8 = _ast.parse("def f(struct, nsym):\n    return tuple(tuple(-c for c in x[:nsym]) for x in struct.t)\n").body[0]
+
+    def hits7(fn):
+        inl = A.Inliner(fn)
+        out = []
+        for n in _ast.walk(fn):
+            if isinstance(n, _ast.Call) and A.call_name(n) in ("sum", "np.sum") and len(n.args) == 1:
+                e = inl.expand(n.args[0]) if isinstance(n.args[0], _ast.Name) else n.args[0]
+                if isinstance(e, _ast.Attribute) and e.attr == "n":
+                    out.append(n)
+        return out
+
+    def hits8(fn):
+        par = A.enclosing_map(fn)
+        out = []
+        # comprehension targets -> their iterables, to follow `for x in struct.t` ... `for c in x[:nsym]`
+        tgt = {}
+        for n in _ast.walk(fn):
+            if isinstance(n, (_ast.ListComp, _ast.GeneratorExp, _ast.SetComp)):
+                for g in n.generators:
+                    for nm in _ast.walk(g.target):
+                        if isinstance(nm, _ast.Name):
+                            tgt[nm.id] = g.iter
+            elif isinstance(n, _ast.For):
+                for nm in _ast.walk(n.target):
+                    if isinstance(nm, _ast.Name):
+                        tgt[nm.id] = n.iter
+
+        def from_charges(e, depth=0):
+            if depth > 4:
+                return False
+            if charge_attr(e):
+                return True
+            for x in _ast.walk(e):
+                if isinstance(x, _ast.Name):
+                    if x.id in tgt and from_charges(tgt[x.id], depth + 1):
+                        return True
+            return False
+        for n in _ast.walk(fn):
+            if isinstance(n, (_ast.ListComp, _ast.GeneratorExp)) and len(n.generators) == 1 and isinstance(n.generators[0].target, _ast.Name):
+                v = n.generators[0].target.id
+                neg = [x for x in _ast.walk(n.elt) if isinstance(x, _ast.UnaryOp) and isinstance(x.op, _ast.USub) and isinstance(x.operand, _ast.Name) and x.operand.id == v]
+                if neg and from_charges(n.generators[0].iter):
+                    # reduced afterwards by the symmetry: `sym.fuse(np.array([-c ...]), ...)`
+                    cur, reduced = n, False
+                    while cur in par:
+                        cur = par[cur]
+                        if isinstance(cur, _ast.Call) and (A.call_name(cur) or "").split(".")[-1] in ("fuse", "add_charges"):
+                            reduced = True
+                    if not reduced:
+                        out.append(n)
+        return out
+    if len(hits7(fx7)) != 1 or len(hits8(fx8)) != 1:
+        raise AnalysisError("G7/G8: the built-in positive fixtures are not recognised (rule broken)")
+    for f in prog.all_funcs():
+        if not f.module.name.startswith(tuple(prefixes)) or "torch" in f.module.name:
+            continue
+        txt = A.text(f.node)
+        h7 = hits7(f.node) if "sum(" in txt else []
+        h8 = hits8(f.node) if " for " in txt and "-" in txt else []
+        for n in h7:
+            chk.bad(rule7, (f, n), A.text(n), f"{f.short}(): `{A.text(n)}` adds the components of one charge: for a product symmetry a non-zero charge whose components "
+                    f"cancel, e.g. (1, -1) of U1xU1, passes for zero (a diagonal tensor with non-zero charge is produced, blocks pair different sectors)")
+        for n in h8:
+            chk.bad(rule8, (f, n), A.short(n, 80), f"{f.short}(): `{A.short(n, 80)}` negates charges component by component without the symmetry's reduction: for a cyclic "
+                    f"factor the result (-1, -2) is outside the canonical range 0..N-1 -- the tensor carries sectors no leg accepts and that never match "
+                    f"the canonical charges of other tensors")
+        if not h7:
+            chk.ok(rule7, f, f"{f.short}: no sum over a charge", sample=False)
+        if not h8:
+            chk.ok(rule8, f, f"{f.short}: no bare negation of charges", sample=False)
